@@ -387,6 +387,9 @@ Definition sc_at (text : list obs) (i : Z) : Z := o_script (obs_at text i).
 Definition script_uniform_run (text : list obs) (r : input) : Prop :=
   forall i, i_start r <= i < i_end r -> strong (sc_at text i) = true -> sc_at text i = i_script r.
 
+(* a closing paired delimiter (matched or not) *)
+Definition is_closer (o : obs) : bool := negb (strong (o_script o)) && (0 <=? o_delim o) && Z.odd (o_delim o).
+
 Definition cut_reason (text : list obs) (k : Z) : Prop :=
   strong (sc_at text k) = true \/ is_closer (obs_at text k) = true.
 
@@ -462,6 +465,299 @@ Proof.
       * cbn [i_start set_start]. right. apply orb_false_iff in E1. destruct E1 as (E1 & _). apply negb_false_iff in E1.
         destruct (delim_resolve_cases _ _ _ _ _ Ed) as [->|Hcl]; [left|right]; auto.
     + apply Forall_app. split; auto.
+Qed.
+
+(* ---- matched paired delimiters: the specification's position stack --------------------------------- *)
+Definition sstep (text : list obs) (stk : dstack) (i : Z) : dstack :=
+  let o := obs_at text i in
+  let di := if strong (o_script o) then -1 else o_delim o in
+  if 0 <=? di then
+    if Z.even di then (di, i) :: stk else snd (pop_match stk (di - 1))
+  else stk.
+Definition stack_after (text : list obs) (idxs : list Z) (stk : dstack) : dstack := fold_left (sstep text) idxs stk.
+
+Lemma match_loop_app text l1 : forall l2 stk,
+  match_loop text (l1 ++ l2) stk = match_loop text l1 stk ++ match_loop text l2 (stack_after text l1 stk).
+Proof.
+  induction l1 as [|i l1 IH]; intros l2 stk; cbn [app match_loop stack_after fold_left]; auto.
+  unfold sstep at 2. cbv zeta.
+  destruct (0 <=? _); [|apply IH].
+  destruct (Z.even _); [apply IH|].
+  destruct (pop_match stk _) as ([p|], stk'); cbn [snd]; [|apply IH].
+  cbn [app]. f_equal. apply IH.
+Qed.
+
+Lemma zrange_nil a : zrange a a = [].
+Proof. unfold zrange. now rewrite Z.sub_diag. Qed.
+
+Lemma zrange_snoc a k : a <= k -> zrange a (k + 1) = zrange a k ++ [k].
+Proof.
+  intros H. unfold zrange. replace (Z.to_nat (k + 1 - a)) with (S (Z.to_nat (k - a))) by lia.
+  rewrite seq_S, map_app. cbn. f_equal. f_equal. lia.
+Qed.
+
+Lemma zrange_app a b c : a <= b -> b <= c -> zrange a c = zrange a b ++ zrange b c.
+Proof.
+  intros H1 H2. replace c with (b + Z.of_nat (Z.to_nat (c - b))) by lia.
+  induction (Z.to_nat (c - b)) as [|n IH].
+  - rewrite Z.add_0_r, zrange_nil, app_nil_r. reflexivity.
+  - replace (b + Z.of_nat (S n)) with (b + Z.of_nat n + 1) by lia.
+    rewrite !zrange_snoc by lia. rewrite IH, app_assoc. reflexivity.
+Qed.
+
+Definition stk_rel (R : Z -> Z -> Prop) (stk pstk : dstack) : Prop :=
+  Forall2 (fun m q => fst m = fst q /\ R (snd q) (snd m)) stk pstk.
+
+Lemma stk_rel_weaken (R R' : Z -> Z -> Prop) stk pstk :
+  (forall p sc, R p sc -> R' p sc) -> stk_rel R stk pstk -> stk_rel R' stk pstk.
+Proof. intros H HF. induction HF; constructor; auto. destruct H0; split; auto. Qed.
+
+Lemma pop_match_rel R c stk pstk : stk_rel R stk pstk ->
+  match pop_match stk c, pop_match pstk c with
+  | (Some sc, stk'), (Some p, pstk') => R p sc /\ stk_rel R stk' pstk'
+  | (None, stk'), (None, pstk') => stk' = [] /\ pstk' = []
+  | _, _ => False
+  end.
+Proof.
+  intros HF. induction HF as [|(ix, sc) (ix', p) stk pstk (H1 & H2) HF IH]; cbn; auto.
+  cbn in H1, H2. subst ix'. destruct (ix =? c); auto.
+Qed.
+
+(* one rune through delim_resolve and through the specification's stack *)
+Lemma delim_step_rel R text k stk pstk cs rs stk1 : stk_rel R stk pstk ->
+  delim_resolve stk cs (obs_at text k) = (rs, stk1) ->
+  exists stk0 pstk0, stk_rel R stk0 pstk0 /\
+    ( (stk1 = stk0 /\ sstep text pstk k = pstk0 /\ match_loop text [k] pstk = [] /\ rs = sc_at text k)
+    \/ (exists di, stk1 = (di, cs) :: stk0 /\ sstep text pstk k = (di, k) :: pstk0 /\ match_loop text [k] pstk = []
+                   /\ strong rs = false)
+    \/ (exists p, stk1 = stk0 /\ sstep text pstk k = pstk0 /\ match_loop text [k] pstk = [(k, p)] /\ R p rs) ).
+Proof.
+  intros HR H. unfold delim_resolve in H. unfold sstep, sc_at. cbn [match_loop]. cbv zeta in *.
+  set (o := obs_at text k) in *.
+  destruct (strong (o_script o)) eqn:Es.
+  - cbn in H. injection H as <- <-. exists stk, pstk. split; auto.
+  - destruct (0 <=? o_delim o) eqn:E0.
+    + destruct (Z.even (o_delim o)) eqn:Ee.
+      * injection H as <- <-. exists stk, pstk. split; auto. right. left. exists (o_delim o). auto.
+      * pose proof (pop_match_rel R (o_delim o - 1) stk pstk HR) as Hp.
+        destruct (pop_match stk (o_delim o - 1)) as ([sc|], stk'); destruct (pop_match pstk (o_delim o - 1)) as ([p|], pstk');
+          try contradiction; injection H as <- <-.
+        -- destruct Hp as (Hp1 & Hp2). exists stk', pstk'. split; auto. right. right. exists p. auto.
+        -- destruct Hp as (-> & ->). exists [], []. split; [constructor|]. left. auto.
+    + injection H as <- <-. exists stk, pstk. split; auto.
+Qed.
+
+(* ---- the invariant of splitByScript on one bidi run [s, e) ------------------------------------------- *)
+Definition scr (L : list input) (pos sc : Z) : Prop :=
+  exists r, In r L /\ i_start r <= pos < i_end r /\ i_script r = sc.
+
+Lemma scr_incl L L' pos sc : incl L L' -> scr L pos sc -> scr L' pos sc.
+Proof. intros Hi (r & H1 & H2). exists r. auto. Qed.
+
+(* a stack entry (position p, script sc) while rune k of the bidi run starting at s is examined; cs = current script *)
+Definition ent_ok (s k : Z) (L : list input) (cs : Z) (p sc : Z) : Prop :=
+  p < k /\ (s <= p -> scr L p sc) /\ (p < s -> cs <> SC_COMMON -> scr L s sc).
+(* a matched pair (closing i, opening p) *)
+Definition match_ok (s k : Z) (L : list input) (ip : Z * Z) : Prop :=
+  s <= fst ip < k /\ snd ip < fst ip /\
+  exists c, scr L (fst ip) c /\ (s <= snd ip -> scr L (snd ip) c) /\ (snd ip < s -> scr L s c).
+(* why a run starts where it starts *)
+Definition cut_ok (text : list obs) (s : Z) (ms : list (Z * Z)) (r : input) : Prop :=
+  i_start r = s \/ strong (sc_at text (i_start r)) = true \/ In (i_start r) (map fst ms).
+
+Lemma cut_ok_app text s ms ms' r : cut_ok text s ms r -> cut_ok text s (ms ++ ms') r.
+Proof. intros [H|[H|H]]; [left|right; left|right; right]; auto. rewrite map_app. apply in_or_app. auto. Qed.
+
+Definition binv (text : list obs) (s e : Z) (pstk0 : dstack) (k : Z) (stk : dstack) (cur : input) (out : list input) : Prop :=
+  let L := out ++ [cur] in
+  let pstk := stack_after text (zrange s k) pstk0 in
+  let ms := match_loop text (zrange s k) pstk0 in
+  i_end cur = e /\ i_start cur <= k /\ s <= i_start cur /\
+  (i_script cur = SC_COMMON -> out = [] /\ i_start cur = s) /\
+  (i_script cur <> SC_COMMON -> s < k) /\
+  (strong (i_script cur) = true \/ i_script cur = SC_COMMON) /\
+  Forall (fun r => strong (i_script r) = true) out /\
+  stk_rel (ent_ok s k L (i_script cur)) stk pstk /\
+  Forall (match_ok s k L) ms /\
+  Forall (cut_ok text s ms) L.
+
+Lemma strong_not_common c : strong c = true -> c <> SC_COMMON.
+Proof. intros H ->. discriminate. Qed.
+
+(* positions before k keep their run when the current run is cut at k *)
+Lemma scr_cut out cur k rs q c : q < k -> scr (out ++ [cur]) q c ->
+  scr ((out ++ [set_end cur k]) ++ [set_start (set_script cur rs) k]) q c.
+Proof.
+  intros Hq (r & Hin & Hr & Hs). apply in_app_or in Hin. destruct Hin as [Hin|[<-|[]]].
+  - exists r. split; auto. apply in_or_app. left. apply in_or_app. auto.
+  - exists (set_end cur k). split; [apply in_or_app; left; apply in_or_app; right; now left|].
+    cbn [i_start i_end i_script set_end]. split; auto. lia.
+Qed.
+
+Lemma stk_rel_map (R R' : Z -> Z -> Prop) (f : Z * Z -> Z * Z) stk pstk :
+  (forall m q, fst m = fst q /\ R (snd q) (snd m) -> fst (f m) = fst q /\ R' (snd q) (snd (f m))) ->
+  stk_rel R stk pstk -> stk_rel R' (map f stk) pstk.
+Proof. intros H HF. induction HF; cbn; constructor; auto. Qed.
+
+Ltac split10 := split; [|split; [|split; [|split; [|split; [|split; [|split; [|split; [|split]]]]]]]].
+
+Lemma binv_step text x s e pstk0 k stk cur out : s = i_start x -> s <= k < e ->
+  binv text s e pstk0 k stk cur out ->
+  let '(st2, cur2, out2) := gstep dstack (script_step x) s (stk, cur, out) k (obs_at text k) in
+  binv text s e pstk0 (k + 1) st2 cur2 out2.
+Proof.
+  intros Hs Hk (He & Hle & Hge & Hcom & Hnc & Hsc & Hout & Hstk & Hms & Hcut).
+  unfold gstep, script_step.
+  destruct (delim_resolve stk (i_script cur) (obs_at text k)) as (rs, stk1) eqn:Ed.
+  destruct (delim_step_rel _ text k stk _ (i_script cur) rs stk1 Hstk Ed) as (stk0 & pstk1 & Hrel0 & Hcase).
+  set (L := out ++ [cur]) in *. set (cs := i_script cur) in *.
+  set (pstk := stack_after text (zrange s k) pstk0) in *.
+  set (ms := match_loop text (zrange s k) pstk0) in *.
+  assert (Hpstk : stack_after text (zrange s (k + 1)) pstk0 = sstep text pstk k).
+  { rewrite zrange_snoc by lia. unfold stack_after. rewrite fold_left_app. reflexivity. }
+  assert (Hms' : match_loop text (zrange s (k + 1)) pstk0 = ms ++ match_loop text [k] pstk).
+  { rewrite zrange_snoc by lia. apply match_loop_app. }
+  assert (Hcurk : scr L k cs).
+  { exists cur. split; [apply in_or_app; right; now left|]. split; auto. lia. }
+  assert (HLsc : forall q c, scr L q c -> strong c = false -> c = cs /\ i_start cur <= q).
+  { intros q c (r & Hin & Hr & Hsr) Hns. apply in_app_or in Hin. destruct Hin as [Hin|[<-|[]]].
+    - rewrite Forall_forall in Hout. specialize (Hout r Hin). congruence.
+    - split; auto. lia. }
+  destruct (negb (strong rs) || (rs =? cs)) eqn:E1; [|destruct (cs =? SC_COMMON) eqn:E2].
+  - (* the current run goes on *)
+    unfold binv. fold L. fold cs. rewrite Hpstk, Hms'.
+    assert (Hw : forall p sc, ent_ok s k L cs p sc -> ent_ok s (k + 1) L cs p sc).
+    { intros p sc (H1 & H2 & H3). split; auto. lia. }
+    split10; auto; try lia.
+    + destruct Hcase as [(-> & -> & _ & _)|[(di & -> & -> & _ & _)|(p & -> & -> & _ & _)]].
+      * eapply stk_rel_weaken; eauto.
+      * constructor; [|eapply stk_rel_weaken; eauto]. cbn [fst snd]. split; auto.
+        split; [lia|]. split; auto. intros; lia.
+      * eapply stk_rel_weaken; eauto.
+    + apply Forall_app. split.
+      * eapply Forall_impl; [|exact Hms]. intros (i, p) (H1 & H2 & H3). split; auto. cbn [fst] in *. lia.
+      * destruct Hcase as [(_ & _ & -> & _)|[(di & _ & _ & -> & _)|(p & _ & _ & -> & (Hp1 & Hp2 & Hp3))]]; constructor; [|constructor].
+        unfold match_ok; cbn [fst snd]. split; [lia|]. split; [lia|]. exists cs. split; auto.
+        assert (Hrs : rs = cs \/ (strong rs = false)).
+        { apply orb_true_iff in E1. destruct E1 as [E1|E1]; [right; now apply negb_true_iff|left; now apply Z.eqb_eq]. }
+        split.
+        -- intros Hsp. specialize (Hp2 Hsp). destruct Hrs as [<-|Hns]; auto.
+           destruct (HLsc _ _ Hp2 Hns) as (<- & _). auto.
+        -- intros Hps. destruct (Z.eq_dec cs SC_COMMON) as [Hc|Hc].
+           ++ destruct (Hcom Hc) as (Hout0 & Hst). exists cur. split; [apply in_or_app; right; now left|]. split; auto. lia.
+           ++ specialize (Hp3 Hps Hc). destruct Hrs as [<-|Hns]; auto.
+              destruct (HLsc _ _ Hp3 Hns) as (<- & _). auto.
+    + eapply Forall_impl; [|exact Hcut]. intros r. apply cut_ok_app.
+  - (* the current run had no script yet: it takes rs, and so does the whole stack *)
+    apply Z.eqb_eq in E2. destruct (Hcom E2) as (Hout0 & Hst).
+    apply orb_false_iff in E1. destruct E1 as (E1 & _). apply negb_false_iff in E1.
+    assert (Hall : forall q, s <= q < e -> scr ([] ++ [set_script cur rs]) q rs).
+    { intros q Hq. exists (set_script cur rs). split; [now left|]. cbn [i_start i_end i_script set_script]. split; auto. lia. }
+    unfold binv. cbn [i_end i_start i_script set_script]. rewrite Hpstk, Hms'. subst out.
+    split10; auto; try lia.
+    + assert (Hmap : forall st0 ps0, stk_rel (ent_ok s k L cs) st0 ps0 ->
+                stk_rel (ent_ok s (k + 1) ([] ++ [set_script cur rs]) rs) (map (fun en => (fst en, rs)) st0) ps0).
+      { intros st0 ps0 HF. eapply stk_rel_map; [|exact HF].
+        intros m q (Hf & Hp1 & _). cbn [fst snd]. split; auto. split; [lia|]. split; intros; apply Hall; lia. }
+      destruct Hcase as [(-> & -> & _ & _)|[(di & _ & _ & _ & Hns)|(p & -> & -> & _ & _)]]; auto. congruence.
+    + apply Forall_app. split.
+      * eapply Forall_impl; [|exact Hms]. intros (i, p) (H1 & H2 & H3). unfold match_ok; cbn [fst snd] in *. split; [lia|]. split; auto.
+        exists rs. repeat split; intros; apply Hall; lia.
+      * destruct Hcase as [(_ & _ & -> & _)|[(di & _ & _ & -> & _)|(p & _ & _ & -> & (Hp1 & Hp2 & Hp3))]]; constructor; [|constructor].
+        unfold match_ok; cbn [fst snd]. split; [lia|]. split; [lia|]. exists rs. repeat split; intros; apply Hall; lia.
+    + constructor; [|constructor]. left. cbn. auto.
+  - (* a new run starts at k *)
+    apply Z.eqb_neq in E2. specialize (Hnc E2).
+    apply orb_false_iff in E1. destruct E1 as (E1 & E1'). apply negb_false_iff in E1. apply Z.eqb_neq in E1'.
+    replace (k =? s) with false by (symmetry; apply Z.eqb_neq; lia).
+    assert (Hcs : strong cs = true) by (destruct Hsc; congruence).
+    set (L' := (out ++ [set_end cur k]) ++ [set_start (set_script cur rs) k]).
+    assert (Htr : forall q c, q < k -> scr L q c -> scr L' q c) by (intros; now apply scr_cut).
+    assert (Hnewk : scr L' k rs).
+    { exists (set_start (set_script cur rs) k). split; [apply in_or_app; right; now left|].
+      cbn [i_start i_end i_script set_start set_script]. split; auto. lia. }
+    unfold binv. cbn [i_end i_start i_script set_start set_script]. fold L'. rewrite Hpstk, Hms'.
+    assert (Hw : forall p sc, ent_ok s k L cs p sc -> ent_ok s (k + 1) L' rs p sc).
+    { intros p sc (H1 & H2 & H3). split; [lia|]. split; intros; apply Htr; auto; lia. }
+    split10; auto; try lia.
+    + intros Hc. rewrite Hc in E1. discriminate.
+    + apply Forall_app. split; auto.
+    + destruct Hcase as [(-> & -> & _ & _)|[(di & _ & _ & _ & Hns)|(p & -> & -> & _ & _)]]; try congruence;
+        eapply stk_rel_weaken; eauto.
+    + apply Forall_app. split.
+      * eapply Forall_impl; [|exact Hms]. intros (i, p) (H1 & H2 & (c & H3 & H4 & H5)). unfold match_ok; cbn [fst snd] in *. split; [lia|]. split; auto.
+        exists c. repeat split; intros; apply Htr; auto; lia.
+      * destruct Hcase as [(_ & _ & -> & _)|[(di & _ & _ & -> & _)|(p & _ & _ & -> & (Hp1 & Hp2 & Hp3))]]; constructor; [|constructor].
+        unfold match_ok; cbn [fst snd]. split; [lia|]. split; [lia|]. exists rs. split; auto.
+    + unfold L'. apply Forall_app. split; [apply Forall_app; split|].
+      * apply Forall_app in Hcut. destruct Hcut as (Hcut & _). eapply Forall_impl; [|exact Hcut]. intros r. apply cut_ok_app.
+      * apply Forall_app in Hcut. destruct Hcut as (_ & Hcut). inversion Hcut; subst. constructor; [|constructor].
+        apply cut_ok_app. assumption.
+      * constructor; [|constructor]. unfold cut_ok. cbn [i_start set_start]. right.
+        destruct Hcase as [(_ & _ & _ & <-)|[(di & _ & _ & _ & Hns)|(p & _ & _ & -> & _)]]; try congruence.
+        -- left. exact E1.
+        -- right. rewrite map_app. apply in_or_app. right. now left.
+Qed.
+
+Lemma set_end_self cur : set_end cur (i_end cur) = cur.
+Proof. now destruct cur. Qed.
+
+(* one bidi run: the stack it leaves, the pairs closed in it, the reasons of its cuts *)
+Lemma script_run_brackets text stk pstk0 x stk' part : i_start x < i_end x ->
+  stk_rel (fun p _ => p < i_start x) stk pstk0 ->
+  run_loop text script_step (fun inp => set_script inp SC_COMMON) stk x = Ok (stk', part) ->
+  let ms := match_loop text (zrange (i_start x) (i_end x)) pstk0 in
+  stk_rel (fun p _ => p < i_end x) stk' (stack_after text (zrange (i_start x) (i_end x)) pstk0)
+  /\ Forall (match_ok (i_start x) (i_end x) part) ms
+  /\ Forall (cut_ok text (i_start x) ms) part.
+Proof.
+  intros Hlt Hrel H.
+  destruct (run_loop_inv text script_step (fun inp => set_script inp SC_COMMON) stk x stk' part
+              (binv text (i_start x) (i_end x) pstk0)) as (cur & out & HI & ->); auto; try lia.
+  - unfold binv. cbn [i_end i_start i_script set_script app]. rewrite zrange_nil. cbn [stack_after fold_left match_loop].
+    split10; auto; try lia.
+    + eapply stk_rel_weaken; [|exact Hrel]. intros p sc Hp. cbv beta in Hp. split; auto. split; intros; [lia|congruence].
+    + constructor; [|constructor]. left. reflexivity.
+  - intros k st cur out Hk _ HI. now apply (binv_step text x (i_start x) (i_end x) pstk0 k st cur out).
+  - destruct HI as (He & _ & _ & _ & _ & _ & _ & Hstk & Hms & Hcut).
+    rewrite <- He, set_end_self. rewrite He. cbv zeta. split; [|split]; auto.
+    eapply stk_rel_weaken; [|exact Hstk]. intros p sc (Hp & _). exact Hp.
+Qed.
+
+Lemma match_ok_incl s e L L' ip : incl L L' -> match_ok s e L ip -> match_ok s e L' ip.
+Proof.
+  intros Hi (H1 & H2 & c & H3 & H4 & H5). split; auto. split; auto. exists c.
+  split; [|split]; intros; eapply scr_incl; eauto.
+Qed.
+
+(* all the bidi runs of one Split: `pstk` is the specification's stack before the first of them *)
+Lemma script_pass_brackets text : forall bs a b stk pstk stk' sc,
+  chain a b bs -> stk_rel (fun p _ => p < a) stk pstk ->
+  pass (run_loop text script_step (fun inp => set_script inp SC_COMMON)) stk bs = Ok (stk', sc) ->
+  Forall (fun ip => exists bi, In bi bs /\ match_ok (i_start bi) (i_end bi) sc ip) (match_loop text (zrange a b) pstk)
+  /\ Forall (fun r => exists bi, In bi bs /\ cut_ok text (i_start bi) (match_loop text (zrange a b) pstk) r) sc.
+Proof.
+  induction bs as [|x bs IH]; intros a b stk pstk stk' sc Hc Hrel H; cbn [pass] in H.
+  - injection H as <- <-. cbn in Hc. subst b. rewrite zrange_nil. cbn. split; constructor.
+  - destruct Hc as (Hs & Hlt & Hc).
+    destruct (run_loop text script_step (fun inp => set_script inp SC_COMMON) stk x) as [(st1, o1)| | |] eqn:E1; cbn [bind fst snd] in H; try discriminate.
+    destruct (pass (run_loop text script_step (fun inp => set_script inp SC_COMMON)) st1 bs) as [(st2, o2)| | |] eqn:E2; cbn [bind fst snd] in H; try discriminate.
+    injection H as <- <-.
+    pose proof (chain_le _ _ _ Hc) as Hle. subst a.
+    destruct (script_run_brackets text stk pstk x st1 o1) as (Hr1 & Hm1 & Hc1); auto; try lia.
+    rewrite (zrange_app (i_start x) (i_end x) b) by lia. rewrite match_loop_app.
+    set (ms1 := match_loop text (zrange (i_start x) (i_end x)) pstk) in *.
+    set (pstk1 := stack_after text (zrange (i_start x) (i_end x)) pstk) in *.
+    destruct (IH (i_end x) b st1 pstk1 st2 o2 Hc Hr1 E2) as (Hm2 & Hc2).
+    split; apply Forall_app; split.
+    + eapply Forall_impl; [|exact Hm1]. intros ip Hip. exists x. split; [now left|].
+      eapply match_ok_incl; [|exact Hip]. apply incl_appl, incl_refl.
+    + eapply Forall_impl; [|exact Hm2]. intros ip (bi & Hbi & Hip). exists bi. split; [now right|].
+      eapply match_ok_incl; [|exact Hip]. apply incl_appr, incl_refl.
+    + eapply Forall_impl; [|exact Hc1]. intros r Hr. exists x. split; [now left|]. now apply cut_ok_app.
+    + eapply Forall_impl; [|exact Hc2]. intros r (bi & Hbi & Hr). exists bi. split; [now right|].
+      destruct Hr as [Hr|[Hr|Hr]]; [left|right; left|right; right]; auto.
+      rewrite map_app. apply in_or_app. auto.
 Qed.
 
 (* ---- splitByVertOrientation: one run ------------------------------------------------------------ *)
@@ -676,8 +972,16 @@ Definition staged (e : env) (x : input) (sc vt fc : list input) : Prop :=
 Lemma part_ok_chain x p : part_ok x p -> chain (i_start x) (i_end x) p.
 Proof. now intros (? & _). Qed.
 
+(* the matched pairs of the whole range against the runs of the script stage: each pair is closed inside one bidi run
+   `bi`; every script run starts a bidi run, or at a strong rune, or at a matched closing delimiter *)
+Definition brackets_staged (e : env) (x : input) (sc : list input) : Prop :=
+  let b := map (mk_bidi_run x) (intervals_of (e_bidi e) x) in
+  let ms := delim_matches (e_text e) x in
+  Forall (fun ip => exists bi, In bi b /\ match_ok (i_start bi) (i_end bi) sc ip) ms
+  /\ Forall (fun r => exists bi, In bi b /\ cut_ok (e_text e) (i_start bi) ms r) sc.
+
 Lemma split_pure_stages e x : range_ok e x = true -> bidi_wf (i_end x - i_start x) (e_bidi e) = true ->
-  exists sc vt fc, split_pure e x = Ok fc /\ staged e x sc vt fc.
+  exists sc vt fc, split_pure e x = Ok fc /\ staged e x sc vt fc /\ brackets_staged e x sc.
 Proof.
   intros Hr Hwf. pose proof (range_ok_inv _ _ Hr) as (H0 & H1 & H2).
   pose proof (bidi_stage_chain e x Hr Hwf) as Hcb.
@@ -687,6 +991,8 @@ Proof.
     as ((stk, sc) & Hsc); [eapply chain_inside; eauto|].
   unfold split_by_script at 1. rewrite Hsc. cbn [bind snd].
   assert (Hrs : stage_rel (script_part (e_text e)) b sc) by (eapply script_stage; eauto using chain_nonempty).
+  assert (Hbr : brackets_staged e x sc).
+  { unfold brackets_staged, delim_matches. fold b. eapply script_pass_brackets; [exact Hcb|constructor|exact Hsc]. }
   assert (Hcs : chain (i_start x) (i_end x) sc).
   { eapply stage_rel_chain; [|exact Hrs|exact Hcb]. intros y p (Hp & _). now apply part_ok_chain. }
   rewrite enforce_spec by (eapply chain_not_nil; eauto). cbn [bind].
@@ -705,7 +1011,7 @@ Proof.
   destruct (pass_loop_total (e_text e) (face_step (e_hint e)) (fun inp => inp) vt tt) as ((u, fc) & Hfc); [eapply chain_inside; eauto|].
   assert (Hsf : split_by_face (e_text e) (e_hint e) vt = Ok fc) by (unfold split_by_face; now rewrite Hfc).
   assert (Hrf : stage_rel (face_part (e_text e) (e_hint e)) vt fc) by (eapply face_stage; eauto using chain_nonempty).
-  exists sc, vt, fc. split; auto. unfold staged. fold b. fold ln. repeat split; auto.
+  exists sc, vt, fc. split; auto. split; auto. unfold staged. fold b. fold ln. repeat split; auto.
   eapply stage_rel_chain; [|exact Hrf|exact Hcv]. intros y p (Hp & _). now apply part_ok_chain.
 Qed.
 
@@ -785,9 +1091,9 @@ Qed.
 
 (* ---- the statements of C07 on the model ------------------------------------------------------------------ *)
 Lemma split_main e s x : range_ok e x = true -> bidi_wf (i_end x - i_start x) (e_bidi e) = true ->
-  exists runs sc vt, split_runs e s x = Ok runs /\ staged e x sc vt runs.
+  exists runs sc vt, split_runs e s x = Ok runs /\ staged e x sc vt runs /\ brackets_staged e x sc.
 Proof.
-  intros Hr Hwf. destruct (split_pure_stages e x Hr Hwf) as (sc & vt & fc & Hs & Hst).
+  intros Hr Hwf. destruct (split_pure_stages e x Hr Hwf) as (sc & vt & fc & Hs & Hst & Hbr).
   exists fc, sc, vt. rewrite split_runs_pure. auto.
 Qed.
 
@@ -842,10 +1148,53 @@ Proof.
   exists r. repeat split; auto; try lia. pose proof (Forall_in _ _ _ Hk Hr) as (_ & Hsr & _). congruence.
 Qed.
 
-Lemma neutrals_of_staged e x sc vt fc : staged e x sc vt fc ->
-  neutrals_ok (e_text e) (intervals_of (e_bidi e) x) (closers (e_text e) x) fc = true.
+(* the script of a position is the same in the script stage and in the result *)
+Lemma scr_result e x sc vt fc pos c : staged e x sc vt fc -> scr sc pos c -> script_at_run fc pos = c.
 Proof.
-  intros Hst. pose proof Hst as (_ & _ & _ & _ & _ & _ & Hcf).
+  intros Hst (s0 & Hin & Hp & Hs). pose proof Hst as (_ & _ & _ & _ & _ & _ & Hcf).
+  destruct (descend e x sc vt fc s0 pos Hst Hin Hp) as (r & Hr & Hrp & Hrs).
+  unfold script_at_run. rewrite (run_at_chain _ _ _ _ _ Hcf Hr Hrp). congruence.
+Qed.
+
+Lemma interval_at_chain x : forall ivs a b iv pos, chain a b (map (mk_bidi_run x) ivs) -> In iv ivs ->
+  fst (fst iv) <= pos < snd (fst iv) -> interval_at ivs pos = iv.
+Proof.
+  unfold interval_at. induction ivs as [|iv0 ivs IH]; intros a b iv pos Hc Hin Hp; cbn [In] in Hin; [tauto|].
+  cbn [map chain] in Hc. destruct Hc as (H1 & H2 & H3).
+  pose proof (mk_bidi_run_fields x iv0) as (Hb1 & Hb2 & _). rewrite Hb2 in H3.
+  cbn [find]. destruct Hin as [->|Hin].
+  - destruct iv as ((s0, e0), rtl). cbn [fst snd] in Hp. rewrite leb_true, ltb_true by lia. reflexivity.
+  - assert (Hge : snd (fst iv0) <= fst (fst iv)).
+    { destruct (chain_in _ _ _ (mk_bidi_run x iv) H3) as (Ha & _); [now apply in_map|].
+      pose proof (mk_bidi_run_fields x iv) as (Hc1 & _). lia. }
+    destruct iv0 as ((s0, e0), rtl0). cbn [fst snd] in *.
+    replace ((s0 <=? pos) && (pos <? e0)) with false by (symmetry; apply andb_false_iff; right; apply Z.ltb_ge; lia).
+    eapply IH; eauto.
+Qed.
+
+Lemma brackets_of_staged e x sc vt fc : staged e x sc vt fc -> brackets_staged e x sc ->
+  brackets_ok (e_text e) (e_bidi e) x fc = true.
+Proof.
+  intros Hst (Hm & _). pose proof Hst as (Hcb & _).
+  unfold brackets_ok. apply forallb_forall. intros (i, p) Hin.
+  rewrite Forall_forall in Hm. destruct (Hm _ Hin) as (bi & Hbi & (Hi & Hpi & c & Hci & Hsame & Hspan)).
+  cbn [fst snd] in *.
+  apply in_map_iff in Hbi. destruct Hbi as (iv & <- & Hiv).
+  pose proof (mk_bidi_run_fields x iv) as (Hb1 & Hb2 & _). rewrite Hb1, Hb2 in *.
+  rewrite (interval_at_chain x _ _ _ iv i Hcb Hiv Hi).
+  destruct iv as ((s0, e0), rtl). cbn [fst snd] in *.
+  rewrite (scr_result _ _ _ _ _ _ _ Hst Hci).
+  destruct (Z_le_dec s0 p) as [Hle|Hgt].
+  - rewrite leb_true, ltb_true by lia. cbn [andb]. rewrite (scr_result _ _ _ _ _ _ _ Hst (Hsame Hle)). apply Z.eqb_refl.
+  - replace (s0 <=? p) with false by (symmetry; apply Z.leb_gt; lia). cbn [andb].
+    rewrite (scr_result _ _ _ _ _ _ _ Hst (Hspan ltac:(lia))). apply Z.eqb_refl.
+Qed.
+
+(* neutral characters never open a script run; the only closing delimiters that do are the matched ones *)
+Lemma neutrals_of_staged e x sc vt fc : staged e x sc vt fc -> brackets_staged e x sc ->
+  neutrals_ok (e_text e) (intervals_of (e_bidi e) x) (map fst (delim_matches (e_text e) x)) fc = true.
+Proof.
+  intros Hst (_ & Hcuts). pose proof Hst as (_ & _ & _ & _ & _ & _ & Hcf).
   unfold neutrals_ok. apply forallb_forall. intros r Hin.
   destruct (lineage_exists _ _ _ _ _ _ Hst Hin) as (iv & s0 & v & Hl).
   pose proof (lineage_facts _ _ _ _ _ _ _ _ Hl) as (Hrg & _ & Hsc & _).
@@ -855,14 +1204,15 @@ Proof.
     destruct (descend e x sc vt fc s0 (i_start r - 1) Hst) as (r' & Hr' & Hp' & Hs'); [apply Hl|lia|].
     unfold script_at_run. rewrite (run_at_chain _ _ _ _ _ Hcf Hr' Hp'). rewrite Hs', Hsc, Z.eqb_refl. reflexivity.
   - assert (Heq : i_start r = i_start s0) by lia.
-    destruct Hl as [Hiv (ps & (_ & _ & _ & Hcut) & Hsps) _ _ _].
-    pose proof (mk_bidi_run_fields x iv) as (Hb1 & _).
-    destruct (Forall_in _ _ _ Hcut Hsps) as [Hst0|[Hstr|Hcl]].
-    + rewrite Hb1 in Hst0. rewrite !orb_true_iff. left. left. right.
-      apply existsb_exists. exists iv. split; auto. apply Z.eqb_eq. lia.
+    rewrite Forall_forall in Hcuts. destruct (Hcuts s0 (ln_s_in _ _ _ _ _ _ _ _ Hl)) as (bi & Hbi & Hcut).
+    apply in_map_iff in Hbi. destruct Hbi as (iv' & <- & Hiv').
+    pose proof (mk_bidi_run_fields x iv') as (Hb1 & _). rewrite Hb1 in Hcut.
+    destruct Hcut as [Hst0|[Hstr|Hcl]].
+    + rewrite !orb_true_iff. left. left. right.
+      apply existsb_exists. exists iv'. split; auto. apply Z.eqb_eq. lia.
     + rewrite !orb_true_iff. left. right. rewrite Heq. exact Hstr.
     + rewrite !orb_true_iff. right. apply existsb_exists. exists (i_start r). split; [|apply Z.eqb_refl].
-      unfold closers. apply filter_In. split; [apply in_zrange; lia|]. rewrite Heq. exact Hcl.
+      rewrite Heq. exact Hcl.
 Qed.
 
 Lemma orient_of_staged e x sc vt fc : staged e x sc vt fc -> orient_ok (e_text e) x fc = true.
@@ -938,38 +1288,40 @@ Definition pre (e : env) (x : input) : Prop :=
   range_ok e x = true /\ bidi_wf (i_end x - i_start x) (e_bidi e) = true.
 
 Lemma partition_lemma e s x : pre e x -> exists runs, split_runs e s x = Ok runs /\ partition_ok x runs = true.
-Proof. intros (Hr & Hw). destruct (split_main e s x Hr Hw) as (runs & sc & vt & H & Hst). eauto using partition_of_staged. Qed.
+Proof. intros (Hr & Hw). destruct (split_main e s x Hr Hw) as (runs & sc & vt & H & Hst & _). eauto using partition_of_staged. Qed.
 
 Lemma bidi_lemma e s x : pre e x -> exists runs, split_runs e s x = Ok runs /\ bidi_ok (e_bidi e) x runs = true.
-Proof. intros (Hr & Hw). destruct (split_main e s x Hr Hw) as (runs & sc & vt & H & Hst). eauto using bidi_of_staged. Qed.
+Proof. intros (Hr & Hw). destruct (split_main e s x Hr Hw) as (runs & sc & vt & H & Hst & _). eauto using bidi_of_staged. Qed.
 
-Lemma script_lemma e s x : pre e x -> exists runs, split_runs e s x = Ok runs /\ script_ok_weak (e_text e) (e_bidi e) x runs = true.
+Lemma script_of_staged e x sc vt fc : staged e x sc vt fc -> brackets_staged e x sc ->
+  script_ok (e_text e) (e_bidi e) x fc = true.
 Proof.
-  intros (Hr & Hw). destruct (split_main e s x Hr Hw) as (runs & sc & vt & H & Hst). exists runs. split; auto.
-  unfold script_ok_weak. rewrite (strong_of_staged _ _ _ _ _ Hst), (neutrals_of_staged _ _ _ _ _ Hst). reflexivity.
+  intros Hst Hbr. unfold script_ok.
+  rewrite (strong_of_staged _ _ _ _ _ Hst), (brackets_of_staged _ _ _ _ _ Hst Hbr), (neutrals_of_staged _ _ _ _ _ Hst Hbr).
+  reflexivity.
+Qed.
+
+Lemma script_lemma e s x : pre e x -> exists runs, split_runs e s x = Ok runs /\ script_ok (e_text e) (e_bidi e) x runs = true.
+Proof.
+  intros (Hr & Hw). destruct (split_main e s x Hr Hw) as (runs & sc & vt & H & Hst & Hbr). eauto using script_of_staged.
 Qed.
 
 Lemma orient_lemma e s x : pre e x -> exists runs, split_runs e s x = Ok runs /\ orient_ok (e_text e) x runs = true.
-Proof. intros (Hr & Hw). destruct (split_main e s x Hr Hw) as (runs & sc & vt & H & Hst). eauto using orient_of_staged. Qed.
+Proof. intros (Hr & Hw). destruct (split_main e s x Hr Hw) as (runs & sc & vt & H & Hst & _). eauto using orient_of_staged. Qed.
 
 Lemma face_lemma e s x : pre e x -> exists runs, split_runs e s x = Ok runs /\ face_ok (e_text e) (e_hint e) runs = true.
-Proof. intros (Hr & Hw). destruct (split_main e s x Hr Hw) as (runs & sc & vt & H & Hst). eauto using face_of_staged. Qed.
+Proof. intros (Hr & Hw). destruct (split_main e s x Hr Hw) as (runs & sc & vt & H & Hst & _). eauto using face_of_staged. Qed.
 
 Lemma lang_lemma e s x : pre e x -> exists runs, split_runs e s x = Ok runs /\ lang_ok (e_langid e) (e_use e) (e_stl e) x runs = true.
-Proof. intros (Hr & Hw). destruct (split_main e s x Hr Hw) as (runs & sc & vt & H & Hst). eauto using lang_of_staged. Qed.
+Proof. intros (Hr & Hw). destruct (split_main e s x Hr Hw) as (runs & sc & vt & H & Hst & _). eauto using lang_of_staged. Qed.
 
-(* everything at once, for the same result *)
-Definition check_itemization_proved (e : env) (x : input) (runs : list input) : bool :=
-  partition_ok x runs && bidi_ok (e_bidi e) x runs && script_ok_weak (e_text e) (e_bidi e) x runs
-  && orient_ok (e_text e) x runs && face_ok (e_text e) (e_hint e) runs && lang_ok (e_langid e) (e_use e) (e_stl e) x runs.
-
-Lemma all_lemma e s x : pre e x -> exists runs, split_runs e s x = Ok runs /\ check_itemization_proved e x runs = true.
+(* everything at once, for the same result: the whole specification *)
+Lemma all_lemma e s x : pre e x -> exists runs, split_runs e s x = Ok runs /\ check_itemization e x runs = true.
 Proof.
-  intros (Hr & Hw). destruct (split_main e s x Hr Hw) as (runs & sc & vt & H & Hst). exists runs. split; auto.
-  unfold check_itemization_proved, script_ok_weak.
-  rewrite (partition_of_staged _ _ _ _ _ Hst), (bidi_of_staged _ _ _ _ _ Hst), (strong_of_staged _ _ _ _ _ Hst),
-    (neutrals_of_staged _ _ _ _ _ Hst), (orient_of_staged _ _ _ _ _ Hst), (face_of_staged _ _ _ _ _ Hst),
-    (lang_of_staged _ _ _ _ _ Hst). reflexivity.
+  intros (Hr & Hw). destruct (split_main e s x Hr Hw) as (runs & sc & vt & H & Hst & Hbr). exists runs. split; auto.
+  unfold check_itemization.
+  rewrite (partition_of_staged _ _ _ _ _ Hst), (bidi_of_staged _ _ _ _ _ Hst), (script_of_staged _ _ _ _ _ Hst Hbr),
+    (orient_of_staged _ _ _ _ _ Hst), (face_of_staged _ _ _ _ _ Hst), (lang_of_staged _ _ _ _ _ Hst). reflexivity.
 Qed.
 
 Lemma state_independent_lemma e s x : split_runs e s x = split_runs e seg_zero x.
